@@ -109,7 +109,7 @@ def check(repo: Repo, rep: Report) -> None:
     handler_analysis(rep, per, "._handler", "periodic tick")
     # roles: the failed latch is the schedule_periodic local initialised False that the tick sets True; the periodic
     # subscription is the SingleAssignmentDisposable local that schedule_periodic returns
-    from ..rules import locals_by_init, names_assigned_const
+    from ..rules import locals_by_init, names_assigned_const, cell_name as _cellname
     latches = [f_ for f_ in locals_by_init(sp, lambda v: isinstance(v, ast.Constant) and v.value is False) if f_ in names_assigned_const(per, True)]
     failed = latches[0] if len(latches) == 1 else "?failed-latch"
     disps = [d for d in locals_by_init(sp, lambda v: isinstance(v, ast.Call) and call_name(v) in ("SingleAssignmentDisposable", "SerialDisposable", "MultipleAssignmentDisposable"))
@@ -123,7 +123,7 @@ def check(repo: Repo, rep: Report) -> None:
     ok = False
     disp_ok = False
     for h in hs:
-        sets = [n for n in h.body if isinstance(n, ast.Assign) and u(n.targets[0]) == failed and u(n.value) == "True"]
+        sets = [n for n in h.body if isinstance(n, ast.Assign) and _cellname(n.targets[0]) == failed and u(n.value) == "True"]
         first_call = next((i for i, n in enumerate(h.body) if any(isinstance(x, ast.Call) and (dotted(x.func) or "").endswith("._handler") for x in ast.walk(n))), None)
         if sets and first_call is not None and h.body.index(sets[0]) < first_call:
             ok = True
